@@ -8,6 +8,7 @@ import (
 	"os"
 	"strconv"
 	"strings"
+	"time"
 )
 
 type engine interface {
@@ -78,6 +79,21 @@ func main() {
 	}
 	if cur != nil {
 		cur.close()
+	}
+}
+
+// boundedClose runs a shutdown function that may never return on a damaged instance (Nitro.Close waits for the
+// live snapshot list to drain) and gives up after a short while: teardown must never hang the harness.
+func boundedClose(f func()) {
+	done := make(chan struct{})
+	go func() {
+		defer func() { recover() }()
+		f()
+		close(done)
+	}()
+	select {
+	case <-done:
+	case <-time.After(3 * time.Second):
 	}
 }
 
